@@ -386,28 +386,28 @@ Proof.
   - apply andb_true_iff in H. destruct H as [_ H]. auto.
 Qed.
 
-Lemma from_params_inv defs r :
-  from_params defs = Some r ->
+Lemma from_params_inv once defs r :
+  from_params_gen once defs = Some r ->
   exists front last, defs = front ++ [last] /\ defs_ok defs = true /\
     r_objects r = map def_object defs /\
     r_log r = map (fun d => PostInit (d_id d) (map fst (d_fields d))) defs
-              ++ map Execute (pretasks defs) ++ map Execute (d_init last) ++ [Body (d_id last)] /\
+              ++ map Execute (pretasks defs) ++ map Execute (inits once defs last) ++ [Body (d_id last)] /\
     r_root r = d_id last.
 Proof.
-  unfold from_params. destruct (rev defs) as [|last rfront] eqn:Erev; [discriminate|].
+  unfold from_params_gen. destruct (rev defs) as [|last rfront] eqn:Erev; [discriminate|].
   destruct (defs_ok defs) eqn:Eok; [|discriminate]. intros Er. inversion Er; subst; simpl.
   exists (rev rfront), last. repeat split; auto.
   rewrite <- (rev_involutive defs), Erev. reflexivity.
 Qed.
 
 (* one object per definition, wired like the definitions; identities are the ids *)
-Theorem params_objects : forall defs r, from_params defs = Some r ->
+Theorem params_objects_gen : forall once defs r, from_params_gen once defs = Some r ->
   map o_id (r_objects r) = map d_id defs /\ NoDup (map o_id (r_objects r)) /\
   (forall d, In d defs -> In {| o_id := d_id d; o_attrs := map (fun kv => (fst kv, image (snd kv))) (d_fields d) |} (r_objects r)) /\
   (forall o k ov m, In o (r_objects r) -> In (k, ov) (o_attrs o) -> In m (orefs ov) ->
      In m (map o_id (r_objects r))).
 Proof.
-  intros defs r Er. destruct (from_params_inv _ _ Er) as [front [last [Ed [Eok [Ho _]]]]].
+  intros once defs r Er. destruct (from_params_inv _ _ _ Er) as [front [last [Ed [Eok [Ho _]]]]].
   unfold defs_ok in Eok. apply andb_true_iff in Eok. destruct Eok as [Hn Hrefs].
   assert (Hids : map o_id (r_objects r) = map d_id defs).
   { rewrite Ho, map_map. apply map_ext. reflexivity. }
@@ -421,19 +421,26 @@ Proof.
     apply in_flat_map. exists (k', v). split; auto. inversion Ekv; subst. auto.
 Qed.
 
+Theorem params_objects : forall defs r, from_params defs = Some r ->
+  map o_id (r_objects r) = map d_id defs /\ NoDup (map o_id (r_objects r)) /\
+  (forall d, In d defs -> In {| o_id := d_id d; o_attrs := map (fun kv => (fst kv, image (snd kv))) (d_fields d) |} (r_objects r)) /\
+  (forall o k ov m, In o (r_objects r) -> In (k, ov) (o_attrs o) -> In m (orefs ov) ->
+     In m (map o_id (r_objects r))).
+Proof. exact (params_objects_gen true). Qed.
+
 (* the executed sequence: every __post_init__ (definition order, each after its own fields),
    then the distinct pre-tasks in definition order, then the init tasks of the last
-   definition, then the body                                                             *)
-Theorem init_after_pre_before_body : forall defs r, from_params defs = Some r ->
+   definition (inits once defs last), then the body                                          *)
+Theorem init_after_pre_before_body_gen : forall once defs r, from_params_gen once defs = Some r ->
   exists front last, defs = front ++ [last] /\
     r_log r = map (fun d => PostInit (d_id d) (map fst (d_fields d))) defs
-              ++ map Execute (pretasks defs) ++ map Execute (d_init last) ++ [Body (d_id last)] /\
+              ++ map Execute (pretasks defs) ++ map Execute (inits once defs last) ++ [Body (d_id last)] /\
     NoDup (pretasks defs) /\
     (forall p, In p (pretasks defs) <-> exists d, In d defs /\ In p (d_pre d)) /\
-    execs (r_log r) = pretasks defs ++ d_init last /\
+    execs (r_log r) = pretasks defs ++ inits once defs last /\
     posts (r_log r) = map d_id defs.
 Proof.
-  intros defs r Er. destruct (from_params_inv _ _ Er) as [front [last [Ed [_ [_ [Hl _]]]]]].
+  intros once defs r Er. destruct (from_params_inv _ _ _ Er) as [front [last [Ed [_ [_ [Hl _]]]]]].
   exists front, last. split; auto. split; auto.
   unfold pretasks. destruct (dedup_nil_spec (flat_map d_pre defs)) as [N I].
   split; auto. split.
@@ -442,17 +449,65 @@ Proof.
     simpl. rewrite !List.app_nil_r. auto.
 Qed.
 
-(* exactly once over the whole run, when the init tasks are pairwise distinct and none of
-   them is also a pre-task                                                                *)
-Theorem params_each_once : forall defs r front last, from_params defs = Some r ->
+(* the repaired loader: every lightweight task - pre-task or init task - runs exactly once, all of them
+   after every __post_init__ and before the body; an init task runs after the pre-tasks unless it is
+   itself one of them                                                                          *)
+Theorem init_after_pre_before_body : forall defs r, from_params defs = Some r ->
+  exists front last, defs = front ++ [last] /\
+    r_log r = map (fun d => PostInit (d_id d) (map fst (d_fields d))) defs
+              ++ map Execute (pretasks defs) ++ map Execute (inits true defs last) ++ [Body (d_id last)] /\
+    NoDup (pretasks defs) /\
+    (forall p, In p (pretasks defs) <-> exists d, In d defs /\ In p (d_pre d)) /\
+    execs (r_log r) = pretasks defs ++ inits true defs last /\
+    posts (r_log r) = map d_id defs /\
+    NoDup (inits true defs last) /\
+    (forall p, In p (inits true defs last) <-> In p (d_init last) /\ ~ In p (pretasks defs)).
+Proof.
+  intros defs r Er.
+  destruct (init_after_pre_before_body_gen true defs r Er) as [front [last [Ed [Hl [N [I [X P]]]]]]].
+  exists front, last. repeat split; auto; try (apply I); try (apply (proj1 (dedup_spec (d_init last) (pretasks defs)))).
+  - apply (proj2 (dedup_spec (d_init last) (pretasks defs))); auto.
+  - apply (proj2 (dedup_spec (d_init last) (pretasks defs))); auto.
+  - intros [A B]. apply (proj2 (dedup_spec (d_init last) (pretasks defs))). auto.
+Qed.
+
+Lemma nodup_app_disjoint {A} (a b : list A) :
+  NoDup a -> NoDup b -> (forall x, In x b -> ~ In x a) -> NoDup (a ++ b).
+Proof.
+  induction a as [|x a IH]; simpl; intros Na Nb D; auto.
+  inversion Na; subst. constructor.
+  - rewrite in_app_iff. intros [H|H]; auto. apply (D x H). left; auto.
+  - apply IH; auto. intros y Hy Hin. apply (D y Hy). right; auto.
+Qed.
+
+(* exactly once over the whole run: no hypothesis *)
+Theorem params_each_once : forall defs r, from_params defs = Some r ->
+  NoDup (execs (r_log r)) /\
+  exists front last, defs = front ++ [last] /\
+    forall p, In p (execs (r_log r)) <-> (In p (d_init last) \/ exists d, In d defs /\ In p (d_pre d)).
+Proof.
+  intros defs r Er.
+  destruct (init_after_pre_before_body defs r Er) as [front [last [Ed [_ [Np [Ip [Hx [_ [Ni Ii]]]]]]]]].
+  split.
+  - rewrite Hx. apply nodup_app_disjoint; auto. intros x Hx' Hin. apply Ii in Hx'. tauto.
+  - exists front, last. split; auto. intros p. rewrite Hx, in_app_iff, Ii. split.
+    + intros [H|[H _]]; [right; apply Ip; auto | left; auto].
+    + intros [H|H].
+      * destruct (in_dec Nat.eq_dec p (pretasks defs)) as [Hin|Hout]; auto.
+      * left. apply Ip; auto.
+Qed.
+
+(* the loader before fixes/C13-1.diff runs every ENTRY of the init-task list: exactly once only when the
+   init tasks are pairwise distinct and none of them is also a pre-task                              *)
+Theorem params_each_once_listed : forall defs r front last, from_params_listed defs = Some r ->
   defs = front ++ [last] -> NoDup (d_init last) ->
   (forall p, In p (d_init last) -> ~ In p (pretasks defs)) ->
   NoDup (execs (r_log r)).
 Proof.
   intros defs r front last Er Ed Ni Hdis.
-  destruct (init_after_pre_before_body _ _ Er) as [front' [last' [Ed' [_ [Np [_ [Hx _]]]]]]].
+  destruct (init_after_pre_before_body_gen false _ _ Er) as [front' [last' [Ed' [_ [Np [_ [Hx _]]]]]]].
   rewrite Ed in Ed'. apply app_inj_tail in Ed'. destruct Ed' as [_ <-].
-  rewrite Hx. clear - Ni Hdis Np.
+  rewrite Hx. simpl. clear - Ni Hdis Np.
   induction (pretasks defs) as [|x l IH]; simpl; auto.
   inversion Np; subst. constructor.
   - rewrite in_app_iff. intros [H|H]; auto. apply (Hdis x H). left; auto.
@@ -486,15 +541,15 @@ Section Load.
     left. apply fields_edges in Hm. rewrite <- map_map with (f := snd) (g := fun x => x), map_id. auto.
   Qed.
 
-  Theorem load_total : wf_heap -> forall root, root < length h ->
-    exists r, load h root = Some r /\
+  Theorem load_total_gen : forall once, wf_heap -> forall root, root < length h ->
+    exists r, load_gen once h root = Some r /\
       NoDup (map o_id (r_objects r)) /\
       (forall n, In n (map o_id (r_objects r)) <-> reach root n) /\
       r_root r = root.
   Proof.
-    intros W root Hroot.
+    intros once W root Hroot.
     destruct (walk_correct h ser_edges nocut root) as [evs [Ew [Nd [Hr Hp]]]].
-    unfold load, ser_order. rewrite Ew.
+    unfold load_gen, ser_order. rewrite Ew.
     assert (Hexp : forall n, n < length h -> expanded h nocut n).
     { intros n Hn. apply nth_error_range in Hn. destruct (nth_error h n) as [nd|] eqn:En; [|congruence].
       exists nd; auto. }
@@ -514,7 +569,7 @@ Section Load.
       - exists p; auto.
       - unfold out_edges. rewrite En. auto.
       - apply Hexp. apply (W n nd En (rel, m) He). }
-    unfold from_params. rewrite Hok.
+    unfold from_params_gen. rewrite Hok.
     destruct (rev (map (def_of h) order)) as [|last rest] eqn:Erev.
     { exfalso. apply Hr in Hroot'. fold order in Hroot'.
       assert (El : map (def_of h) order = []) by (rewrite <- (rev_involutive (map _ order)), Erev; auto).
@@ -528,6 +583,13 @@ Section Load.
     unfold order in Erev. rewrite Eevs, !map_app, rev_app_distr in Erev. simpl in Erev.
     inversion Erev. reflexivity.
   Qed.
+
+  Theorem load_total : wf_heap -> forall root, root < length h ->
+    exists r, load h root = Some r /\
+      NoDup (map o_id (r_objects r)) /\
+      (forall n, In n (map o_id (r_objects r)) <-> reach root n) /\
+      r_root r = root.
+  Proof. exact (load_total_gen true). Qed.
 End Load.
 
 (* decidable form of wf_heap *)
@@ -583,19 +645,28 @@ Example x_instance_store :
   Some [ PostInit 6 []; PostInit 0 [x_c; x_l]; Execute 5 ].
 Proof. vm_compute. reflexivity. Qed.
 
-(* observation (outside the hypotheses of params_each_once): an init task listed twice, or
-   listed as init task and attached as pre-task, is executed twice                          *)
+(* the loader before fixes/C13-1.diff: an init task listed twice, or listed as init task and attached as
+   pre-task, is executed twice; the repaired loader executes it once                           *)
+Definition twice_defs : list def :=
+  [ {| d_id := 1; d_fields := []; d_pre := []; d_init := [] |};
+    {| d_id := 2; d_fields := []; d_pre := []; d_init := [] |};
+    {| d_id := 0; d_fields := []; d_pre := [1]; d_init := [2; 1; 2] |} ].
+
 Example init_listed_twice_runs_twice :
-  exists defs r, from_params defs = Some r /\ execs (r_log r) = [1; 2; 1; 2].
+  exists defs r, from_params_listed defs = Some r /\ execs (r_log r) = [1; 2; 1; 2].
+Proof. exists twice_defs. eexists. split; [vm_compute; reflexivity|]. reflexivity. Qed.
+
+Theorem init_twice_refuted :
+  exists defs r, from_params_listed defs = Some r /\ ~ NoDup (execs (r_log r)) /\
+    exists r', from_params defs = Some r' /\ execs (r_log r') = [1; 2].
 Proof.
-  exists [ {| d_id := 1; d_fields := []; d_pre := []; d_init := [] |};
-           {| d_id := 2; d_fields := []; d_pre := []; d_init := [] |};
-           {| d_id := 0; d_fields := []; d_pre := [1]; d_init := [2; 1; 2] |} ].
-  eexists. split; [vm_compute; reflexivity|]. reflexivity.
+  exists twice_defs. eexists. split; [vm_compute; reflexivity|]. split.
+  - simpl. intros N. inversion N as [|? ? H _]; subst. apply H. simpl. auto.
+  - eexists. split; [vm_compute; reflexivity|]. reflexivity.
 Qed.
 
 Example params_hyps_satisfiable :
-  exists defs r front last, from_params defs = Some r /\ defs = front ++ [last] /\
+  exists defs r front last, from_params_listed defs = Some r /\ defs = front ++ [last] /\
     NoDup (d_init last) /\ (forall p, In p (d_init last) -> ~ In p (pretasks defs)) /\ d_init last <> [] /\
     pretasks defs <> [].
 Proof.
@@ -720,14 +791,17 @@ Proof.
   rewrite inst_trace_recls. reflexivity.
 Qed.
 
-Theorem load_class_blind : forall f h root, load (map (recls f) h) root = load h root.
+Theorem load_gen_class_blind : forall once f h root, load_gen once (map (recls f) h) root = load_gen once h root.
 Proof.
-  intros f h root. unfold load, ser_order.
+  intros once f h root. unfold load_gen, ser_order.
   rewrite (walk_map (recls f) ser_edges (fun _ => false) h root) by reflexivity.
   destruct (walk h ser_edges (fun _ => false) root) as [evs|]; auto.
   f_equal. apply map_ext. intros n. unfold def_of.
   destruct (node_at_recls f h n) as [A [B C]]. rewrite A, B, C. reflexivity.
 Qed.
+
+Theorem load_class_blind : forall f h root, load (map (recls f) h) root = load h root.
+Proof. exact (load_gen_class_blind true). Qed.
 
 (* two graphs that differ by the classes only (any classes): same objects, same log *)
 Theorem class_blind : forall h h' constructed root,
